@@ -9,7 +9,7 @@ CLAIMS["C20"] = dict(
          "including the out-of-range case (both sides must throw std::out_of_range in this build). span vs an index-checked slice model: static and "
          "dynamic extents 0..3 x 13 constructors x 3 offsets, size/empty/data/operator[]/iteration by element identity, write-through. unique_ptr / "
          "shared_ptr vs std::unique_ptr / std::shared_ptr: two worlds (two base handles, a derived handle, a std handle, a released raw pointer, an array "
-         "handle; instance-counted objects that contain a handle) driven by every operation sequence of depth 4 (quick) / 6 (thorough) over 59 "
+         "handle; instance-counted objects that contain a handle) driven by every operation sequence of depth 4 (quick) / 7 (thorough) over 59 "
          "operations each (all constructors incl. from raw / std / unique_ptr / converting move, copy / move / nullptr / converting assignment incl. "
          "self-assignment and assignment from a handle owned by the target's pointee, reset, release, swap incl. self): after every operation equal "
          "null-ness, pointee identity, comparison results, the same set of destroyed objects, nothing destroyed twice, ASan silent; the pointee "
